@@ -98,6 +98,9 @@ func (run *FuncRun) freshResults(st *State, res *types.Tuple, prefix string) Val
 func (run *FuncRun) callFunction(st *State, in *ssa.Call, b *ssa.BasicBlock, idx int, fn *ssa.Function, bindings []Val, args []Val) bool {
 	mode, fc := run.eng.callMode(fn)
 	switch mode {
+	case "skip":
+		run.set(st, in, Tuple{})
+		return true
 	case "inline":
 		if st.frame.depth > 8 {
 			fail("%s: inlining too deep at %s", run.key, run.eng.funcKey(fn))
@@ -192,6 +195,10 @@ func (run *FuncRun) checkPost(st *State, res Val, in *ssa.Return) {
 	if fc.HasAssigns {
 		run.checkFrame(st, env, fc)
 	}
+	if fc.Pure {
+		// a pure function neither writes nor allocates
+		run.addObligation(st, "frame", "alloc", Eq(st.alloc, run.entry.alloc), "pure function does not allocate", fc.Where)
+	}
 }
 
 func (run *FuncRun) bindResults(env *CEnv, sig *types.Signature, res Val, fc *FuncContract) {
@@ -261,6 +268,18 @@ func (env *CEnv) assignSetOfItems(items []AssignItem, where string) *assignSet {
 			as.all = true
 		case "global":
 			as.globals[it.Name] = true
+		case "var":
+			ref, elem, ok := env.heapLocalRef(it.Name)
+			if !ok {
+				fail("%s: assigns %s: not a captured (heap) local variable", fc.Where, it.Name)
+			}
+			so := reg.SortOf(elem)
+			comp := compCell(so)
+			if _, isS := elem.Underlying().(*types.Struct); isS {
+				comp = compStruct(so)
+			}
+			as.comps[comp] = ArrSort(SInt, so)
+			as.whole[comp] = append(as.whole[comp], ref)
 		case "field":
 			x := env.eval(it.X)
 			pt, ok := x.Type.Underlying().(*types.Pointer)
@@ -355,10 +374,10 @@ func (run *FuncRun) checkFrameAgainst(st *State, base *Snapshot, as *assignSet, 
 	}
 	fc := &FuncContract{Where: where}
 	reg := run.eng.reg
-	for _, name := range sortedKeys(st.heap) {
-		cur := st.heap[name]
+	for _, name := range sortedKeys(run.compSorts) {
 		so := run.compSorts[name]
-		init := base.H(run, name, so)
+		cur := st.H(name, so)
+		init := base.H(run, st.script, name, so)
 		if cur.S == init.S {
 			continue
 		}
@@ -448,9 +467,8 @@ func (run *FuncRun) applyContract(st *State, fc *FuncContract, sig *types.Signat
 	if !fc.Pure {
 		if !fc.HasAssigns {
 			st.HavocAll("callee " + fc.Key + " has no assigns clause")
-			pre2 := pre
-			_ = pre2
-		} else if len(fc.Assigns) > 0 {
+		} else {
+			// even "assigns nothing" callees may allocate: new epoch framed on the pre-state
 			as := env.assignSetOf(fc)
 			for _, f := range env.takeFacts() {
 				st.Assume(f)
@@ -493,67 +511,74 @@ func shortKey(k string) string {
 	return k
 }
 
-// havocAssignSet replaces assigned components by fresh versions that agree
-// with the old ones outside the assigned locations.
+// havocAssignSet starts a new heap epoch in which every component agrees with
+// the pre-state on all pre-existing locations outside the assigns set (objects
+// allocated by the callee are unconstrained).
 func (run *FuncRun) havocAssignSet(st *State, pre *Snapshot, as *assignSet) {
+	st.newEpoch(pre, as)
+}
+
+// frameAxioms relates a new version of a component to its parent version.
+func (run *FuncRun) frameAxioms(name string, nw, old Term, preAlloc Term, as *assignSet) []string {
 	reg := run.eng.reg
-	st.HavocAlloc()
-	for _, name := range sortedKeys(as.comps) {
-		so := as.comps[name]
-		run.compSorts[name] = so
-		old := st.H(name, so)
-		nw := st.Fresh("hv", so)
-		if f := nilMapFact(name, nw); f != "" {
-			st.script.Add(f)
+	var out []string
+	if strings.HasPrefix(name, "G:") {
+		if as != nil && (as.all || as.globals[strings.TrimPrefix(name, "G:")]) {
+			return nil
 		}
-		for _, f := range run.heapFacts(name, nw, st.alloc) {
-			st.script.Add(f)
-		}
-		st.heap[name] = nw
-		r := run.freshName("r")
-		var conds []string
-		conds = append(conds, fmt.Sprintf("(< %s %s)", r, pre.alloc.S))
+		return []string{fmt.Sprintf("(assert (= %s %s))", nw.S, old.S)}
+	}
+	r := run.freshName("r")
+	var conds []string
+	conds = append(conds, fmt.Sprintf("(< %s %s)", r, preAlloc.S))
+	if as != nil {
+		// the nil object (reference 0) can never be written
 		for _, w := range as.whole[name] {
-			conds = append(conds, fmt.Sprintf("(not (= %s %s))", r, w.S))
+			conds = append(conds, fmt.Sprintf("(or (= %s 0) (not (= %s %s)))", r, r, w.S))
 		}
-		for refText := range as.fields[name] {
-			conds = append(conds, fmt.Sprintf("(not (= %s %s))", r, refText))
+		for _, refText := range sortedKeys(as.fields[name]) {
+			conds = append(conds, fmt.Sprintf("(or (= %s 0) (not (= %s %s)))", r, r, refText))
 		}
-		st.script.Add(fmt.Sprintf("(assert (forall ((%s Int)) (! (=> (and %s) (= (select %s %s) (select %s %s))) :pattern ((select %s %s)))))",
-			r, strings.Join(conds, " "), nw.S, r, old.S, r, nw.S, r))
-		// field-level preservation for objects with partially assigned fields
-		_, elemSort := so.arrayParts()
-		if si := reg.Struct(elemSort); si != nil {
-			for refText, fis := range as.fields[name] {
-				ref := as.frefs[name][refText]
-				assigned := map[int]bool{}
-				for _, fi := range fis {
-					assigned[fi] = true
+	}
+	out = append(out, fmt.Sprintf("(assert (forall ((%s Int)) (! (=> (and %s) (= (select %s %s) (select %s %s))) :pattern ((select %s %s)))))",
+		r, strings.Join(conds, " "), nw.S, r, old.S, r, nw.S, r))
+	if as == nil {
+		return out
+	}
+	// field-level preservation for objects with partially assigned fields
+	_, elemSort := nw.Sort.arrayParts()
+	if si := reg.Struct(elemSort); si != nil {
+		for _, refText := range sortedKeys(as.fields[name]) {
+			fis := as.fields[name][refText]
+			ref := as.frefs[name][refText]
+			assigned := map[int]bool{}
+			for _, fi := range fis {
+				assigned[fi] = true
+			}
+			for fi := range si.Fields {
+				if assigned[fi] {
+					continue
 				}
-				for fi := range si.Fields {
-					if assigned[fi] {
+				// preserved unless another item aliases this object and assigns the field
+				var guards []Term
+				for _, w := range as.whole[name] {
+					guards = append(guards, Neq(ref, w))
+				}
+				for other, ofis := range as.fields[name] {
+					if other == refText {
 						continue
 					}
-					// preserved unless another item aliases this object and assigns the field
-					var guards []Term
-					for _, w := range as.whole[name] {
-						guards = append(guards, Neq(ref, w))
-					}
-					for other, ofis := range as.fields[name] {
-						if other == refText {
-							continue
-						}
-						for _, x := range ofis {
-							if x == fi {
-								guards = append(guards, Neq(ref, as.frefs[name][other]))
-							}
+					for _, x := range ofis {
+						if x == fi {
+							guards = append(guards, Neq(ref, as.frefs[name][other]))
 						}
 					}
-					st.Assume(Implies(And(guards...), Eq(reg.FieldGet(Select(nw, ref), fi), reg.FieldGet(Select(old, ref), fi))))
 				}
+				out = append(out, "(assert "+Implies(And(guards...), Eq(reg.FieldGet(Select(nw, ref), fi), reg.FieldGet(Select(old, ref), fi))).S+")")
 			}
 		}
 	}
+	return out
 }
 
 // ---------- builtins ----------
